@@ -154,7 +154,7 @@ theorem no_space_in_line_underflow (b : WB) (hi : b.Inv) : ¬ (b.linelen > b.wid
     `WrappedBlock::new` does), `add_text` with any characters in any white-space mode returns a block or `TooNarrow`,
     and so does `into_lines` afterwards -/
 theorem text_layer_total (b : WB) (m : WS) (mt wt : Tag) (cs : List Ch) (hi : b.Inv) (hl : b.Live) :
-    Safe (b.addText m mt wt cs) ∧ ∀ b', b.addText m mt wt cs = .ok b' → b'.Inv ∧ b'.Live ∧ Safe b'.finish :=
+    Safe b.overflow (b.addText m mt wt cs) ∧ ∀ b', b.addText m mt wt cs = .ok b' → b'.Inv ∧ b'.Live ∧ Safe b'.overflow b'.finish :=
   ⟨addText_safe b m mt wt cs hi, fun b' h =>
     let r := addText_inv' m mt wt cs b b' hi hl h
     ⟨r.1, r.2.1, finish_safe b' r.1 r.2.1⟩⟩
@@ -167,13 +167,13 @@ theorem new_block_ok (w : Nat) (pad ov : Bool) :
 /-- **rendering a table-free tree is total**: lines or `TooNarrow`, for every configuration, decorator and width -/
 theorem render_total_table_free (cfg : Cfg) (d : Deco) (w : Nat) (tree : RNode) (h : noTable tree = true) :
     ∀ e, renderTree cfg d w tree = .error e → e = .tooNarrow :=
-  renderTree_total_noTable cfg d w tree h
+  (renderTree_total_noTable cfg d w tree h).only_narrow
 
 /-- **rendering any tree is total** (tables included): lines or `TooNarrow`, for every configuration, decorator and
     width, provided every table's cells lie inside its columns -/
 theorem render_total (cfg : Cfg) (d : Deco) (w : Nat) (tree : RNode) (h : tableOk tree = true) :
     ∀ e, renderTree cfg d w tree = .error e → e = .tooNarrow :=
-  renderTree_total cfg d w tree h
+  (renderTree_total cfg d w tree h).only_narrow
 
 theorem render_no_panic_no_hang (cfg : Cfg) (d : Deco) (w : Nat) (tree : RNode) (h : tableOk tree = true) :
     (∀ s, renderTree cfg d w tree ≠ .error (.panic s)) ∧ (∀ s, renderTree cfg d w tree ≠ .error (.hang s)) := by
